@@ -46,6 +46,7 @@ func runC03(p *Prog, r *Report) {
 		o2.Rule = "C03.R6"
 		r.Obs = append(r.Obs, &o2)
 	}
+	checkParserTolerant(p, r)
 	checkFilterTranscription(p, r)
 	checkBPFBuilders(p, r)
 	// R9: every frame the socket delivers reaches the processor exactly once (C20.R1/R2 re-evaluated)
@@ -698,6 +699,10 @@ func sxSeg(s *Seg, v ssa.Value, d int) string {
 		}
 		return n + "(" + strings.Join(as, ",") + ")"
 	case *ssa.Alloc:
+		// a local array filled by exactly one copy(a[:], src) on this path and otherwise only read is a copy of src
+		if src := localArrayCopySource(s, t); src != nil {
+			return "copy(" + sxSeg(s, src, d+1) + ")"
+		}
 		return "new"
 	case *ssa.Slice:
 		return sxSeg(s, t.X, d+1) + "[:]"
@@ -1041,4 +1046,137 @@ func letterOf(c *ssa.CallCommon) (int64, bool) {
 		}
 	}
 	return 0, false
+}
+
+// checkParserTolerant (R6): a reply that carries bytes behind its transport header (RST with diagnostic
+// text, SYN+ACK with data, ICMP error quoting the probe, padded ARP) is still a reply-shaped frame. The
+// processors' parsers know only the headers; gopacket's DecodeLayers returns UnsupportedLayerType for the
+// rest unless IgnoreUnsupported is set, and the processors return on that error before any record is put.
+// So: every parser built with gopacket.NewDecodingLayerParser has IgnoreUnsupported stored true on every
+// path from the constructor call to the return of the function that built it.
+func checkParserTolerant(p *Prog, r *Report) {
+	n := 0
+	for _, fn := range p.SrcFuncs() {
+		if fn.Pkg == nil || !strings.HasPrefix(fn.Pkg.Pkg.Path(), modPath+"/pkg/scan") {
+			continue
+		}
+		var calls []*ssa.Call
+		for _, b := range fn.Blocks {
+			for _, in := range b.Instrs {
+				if c, ok := in.(*ssa.Call); ok && calleeFull(&c.Call) == "github.com/google/gopacket.NewDecodingLayerParser" {
+					calls = append(calls, c)
+				}
+			}
+		}
+		for i, c := range calls {
+			n++
+			name := fmt.Sprintf("%s/parser#%d/trailing-bytes", FuncName(fn), i+1)
+			pos := p.Pos(c.Pos())
+			fp := Paths(fn)
+			if fp.Truncated {
+				r.Undecided("C03.R6", name, pos, "the constructor's paths can be enumerated", "too many paths")
+				continue
+			}
+			ok, why := true, ""
+			nPath := 0
+			var path []string
+			for _, s := range fp.Segs {
+				if !s.Returns() || !s.Has(c) {
+					continue
+				}
+				nPath++
+				set := false
+				for _, b := range s.Blocks {
+					for _, in := range b.Instrs {
+						st, isS := in.(*ssa.Store)
+						if !isS || !s.Has(st) || !s.Before(c, st) {
+							continue
+						}
+						fa, isFA := st.Addr.(*ssa.FieldAddr)
+						if !isFA || fieldName(fa.X.Type(), fa.Field) != "IgnoreUnsupported" {
+							continue
+						}
+						base := fa.X
+						for {
+							inner, isInner := base.(*ssa.FieldAddr) // promoted through the embedded options struct
+							if !isInner {
+								break
+							}
+							base = inner.X
+						}
+						own := s.Resolve(base) == ssa.Value(c)
+						if !own {
+							for _, o := range p.Origins(base) {
+								if o == ssa.Value(c) {
+									own = true
+								}
+							}
+						}
+						if !own {
+							continue
+						}
+						if k, isK := s.Resolve(st.Val).(*ssa.Const); isK && k.Value != nil && k.Value.String() == "true" {
+							set = true
+						} else {
+							set = false
+						}
+					}
+				}
+				if !set {
+					ok, why = false, "a path returns this parser with IgnoreUnsupported unset: a reply with bytes behind its transport header fails to decode and yields no record"
+					path = s.Describe(p)
+				}
+			}
+			r.Check(ok && nPath > 0, "C03.R6", name, pos, "the parser skips what lies behind the headers it knows (IgnoreUnsupported = true on every path), so replies with a payload are still reported", why, path...)
+		}
+	}
+	if n < 3 {
+		r.Viol("C03.R6", "parsers", "-", "tcp, icmp/udp and arp processors each build a parser", fmt.Sprintf("found %d", n))
+	}
+}
+
+// localArrayCopySource: a is a local fixed-size array whose only writer is one `copy(a[:], src)` executed on
+// segment s (every other referrer reads it); returns src.
+func localArrayCopySource(s *Seg, a *ssa.Alloc) ssa.Value {
+	if s == nil || a.Referrers() == nil {
+		return nil
+	}
+	pt, ok := a.Type().Underlying().(*types.Pointer)
+	if !ok {
+		return nil
+	}
+	if _, isArr := pt.Elem().Underlying().(*types.Array); !isArr {
+		return nil
+	}
+	var src ssa.Value
+	n := 0
+	for _, ref := range *a.Referrers() {
+		switch t := ref.(type) {
+		case *ssa.UnOp:
+			// load
+		case *ssa.Slice:
+			if t.Referrers() == nil {
+				return nil
+			}
+			for _, r2 := range *t.Referrers() {
+				c, isC := r2.(*ssa.Call)
+				if !isC {
+					return nil
+				}
+				b, isB := c.Call.Value.(*ssa.Builtin)
+				if !isB || b.Name() != "copy" || len(c.Call.Args) != 2 || c.Call.Args[0] != ssa.Value(t) || !s.Has(c) {
+					return nil
+				}
+				n++
+				src = c.Call.Args[1]
+			}
+		case *ssa.DebugRef:
+		default:
+			return nil
+		}
+	}
+	if n != 1 {
+		return nil
+	}
+	return src
 }
